@@ -53,12 +53,19 @@ def specKeyName (k : Node) : String :=
   | .mk .num (v :: _) _ => v
   | _ => ""
 
+/-- the key of a member: `name`, `'name'`, `['name']`, `1` name the property statically; `[name]` (a computed identifier key) names
+    it by the VALUE of `name` - the declared key is the computed key `[name]`, not the word `name` -/
+def specKeyC (computed : String) (k : Node) : Option Node :=
+  match k with
+  | .mk .ident (n :: r) ks => if computed == "true" then some (.mk .computed [] [.mk .ident (n :: r) ks]) else some (nIdentName n)
+  | k => specKey k
+
 def membersSpec (members : List Node) : List PropSpec :=
   members.filterMap fun m =>
     match m with
-    | .mk .tsPropSig [_, _, opt] [key, ann] => (specKey key).map fun k => { key := k, optional := opt == "true", ty := typeAnnInner ann }
-    | .mk .tsMethodSig [_, opt] (key :: _) => (specKey key).map fun k => { key := k, optional := opt == "true", ty := none, isMethod := true }
-    | .mk .tsGetterSig _ [key, ann] => (specKey key).map fun k => { key := k, optional := false, ty := typeAnnInner ann }
+    | .mk .tsPropSig [_, comp, opt] [key, ann] => (specKeyC comp key).map fun k => { key := k, optional := opt == "true", ty := typeAnnInner ann }
+    | .mk .tsMethodSig [comp, opt] (key :: _) => (specKeyC comp key).map fun k => { key := k, optional := opt == "true", ty := none, isMethod := true }
+    | .mk .tsGetterSig as [key, ann] => (specKeyC (as.headD "false") key).map fun k => { key := k, optional := false, ty := typeAnnInner ann }
     | _ => none
 
 /-- string-literal union (through aliases) as a list of strings; none if it is anything else -/
@@ -360,8 +367,8 @@ def emitMemberSpec (fuel : Nat) (reg : St) (acc : Option (List String)) (m : Nod
      | some t => (literalStrings fuel reg t).map (a ++ ·)
      | none => some a)
   -- the property syntax `{ name: [args] }` / `{ name(args): void }`: statically named (identifier or quoted) members
-  | some a, .mk .tsPropSig _ (k :: _) => some (match pickName k with | some n => a ++ [n] | none => a)
-  | some a, .mk .tsMethodSig _ (k :: _) => some (match pickName k with | some n => a ++ [n] | none => a)
+  | some a, .mk .tsPropSig as (k :: _) => some (match (specKeyC (as.getD 1 "false") k).bind pickName with | some n => a ++ [n] | none => a)
+  | some a, .mk .tsMethodSig as (k :: _) => some (match (specKeyC (as.headD "false") k).bind pickName with | some n => a ++ [n] | none => a)
   | some a, _ => some a
   | none, _ => none
 
